@@ -147,8 +147,22 @@ def cases(draw):
     return dict(game=g, api="solve")
 
 
+def corridor_cases():
+    for game, vals, T in games.corridor_games():
+        yield dict(game=game, api="solver", theta=1e-6, known=dict(pstar=vals, T=T))
+
+
 def phases(tier):
-    return [Phase("planted-ties-and-random", strategy=cases, examples=(2000, 80000))]
+    return [Phase("deep-corridors", enum=corridor_cases,
+                  note="values that travel one state per sweep over 60-1030 states; exact values known by construction"),
+            Phase("planted-ties-and-random", strategy=cases, examples=(2000, 80000))]
+
+
+def sample_view(case):
+    if "known" in case:
+        return dict(api=case["api"], theta=case["theta"], n_states=len(case["game"]["players"]),
+                    first_states=case["game"]["transition_list"][:6], note="deep corridor, abbreviated")
+    return case
 
 
 # ----------------------------------------------------------------------------- the check
@@ -251,7 +265,9 @@ def check_strategies(v, game, facts, pstar, phat, strat, theta, label, stopping)
 def check_case(case):
     v = Verdict()
     game = case["game"]
-    facts = GameFacts(game)
+    facts = GameFacts(game, known=case.get("known"))
+    if "known" in case:
+        v.key = dict(n=len(game["players"]), first=game["transition_list"][:8], owner=game["players"][0])
     try:
         stopping = facts.stopping
         pstar = facts.pstar
